@@ -28,11 +28,19 @@ type traffic struct {
 	rcli  rpc.Client
 }
 
+// failRequest asks the echo handler to return an error status.
+var failRequest = []byte("\xeefail-request")
+
 func mpxEcho(ctx mpx.Context, ch mpx.Channel) status.Status {
 	for {
 		data, st := ch.Receive(ctx)
 		if !st.OK() {
 			return status.OK
+		}
+		if bytes.Equal(data, failRequest) {
+			// the handler ends with an error status: the library logs it and releases the (pooled)
+			// handler object
+			return status.Errorf("handler failure requested by the peer")
 		}
 		if st := ch.Send(ctx, data); !st.OK() {
 			return status.OK
@@ -218,6 +226,15 @@ func (t *traffic) mpxChannel(msgs [][]byte, timeout time.Duration) (tok string) 
 		}
 		if !bytes.Equal(data, m) {
 			return fmt.Sprintf("echo-differs[%d]:len=%d/%d", k, len(data), len(m))
+		}
+	}
+	if len(msgs) > 0 && len(msgs[0])%2 == 0 {
+		// every other channel ends through a handler error
+		if st := ch.Send(ctx, failRequest); !st.OK() {
+			return "send[fail]:" + string(st.Code)
+		}
+		if data, st := ch.Receive(ctx); st.OK() {
+			return fmt.Sprintf("fail-request-answered:len=%d", len(data))
 		}
 	}
 	return "ok"
